@@ -35,6 +35,10 @@ def dbl(w):
     v = str(w) * 2
     LOG.append(("dbl", [str(w)], v))
     return v
+def cat(w, z):
+    v = str(w) + str(z) + str(w)
+    LOG.append(("cat", [str(w), str(z)], v))
+    return v
 '''
 
 
@@ -86,12 +90,27 @@ def catalog() -> dict:
                        generators={"<c>": "const()", "<p>": "pick()", "<v>": "dbl(<w>)"}, prelude=GEN_PRELUDE),
         cons=[Atom('str({0}) == "k"', (Sym("<k>"),), cmp=True), Atom('str({0}) != "3"', (Sym("<tail>"),), cmp=True),
               Atom('str({0}) != "11"', (Sym("<v>"),), cmp=True), Atom('str({0}) != "1"', (Sym("<p>"),), cmp=True)],
-        gens={"<c>": ("const", lambda args: "12"), "<p>": ("pick", None), "<v>": ("dbl", lambda args: args[0] * 2)},
+        gens={"<c>": ("const", lambda a: "12"), "<p>": ("pick", None), "<v>": ("dbl", lambda a: a["<w>"] * 2)},
+    )
+    c["generators2"] = dict(
+        ref=RefGrammar({"<start>": Seq((NT("<k>"), NT("<u>"), NT("<tail>"))), "<k>": Alt((Lit("k"), Lit("j"))), "<u>": Plus(NT("<d>")),
+                        "<w>": Alt((Lit("1"), Lit("2"))), "<z>": Alt((Lit("1"), Lit("3"))), "<tail>": Rep(NT("<d>"), 1, 2), "<d>": D},
+                       generators={"<u>": "cat(<w>, <z>)"}, prelude=GEN_PRELUDE),
+        cons=[Atom('str({0}) == "k"', (Sym("<k>"),), cmp=True)],
+        extra_cons=['str(<w>) != "1"', 'str(<z>) != "1"'],   # on generator ARGUMENTS (kept in .sources): makes the operators edit them
+        gens={"<u>": ("cat", lambda a: a["<w>"] + a["<z>"] + a["<w>"])},
+    )
+    c["generators_eq"] = dict(
+        ref=RefGrammar({"<start>": Seq((NT("<c>"), Lit("-"), NT("<t>"), Lit("-"), NT("<p>"))), "<c>": Plus(NT("<d>")), "<t>": Plus(NT("<d>")),
+                        "<p>": Plus(NT("<d>")), "<d>": D},
+                       generators={"<c>": "const()", "<p>": "pick()"}, prelude=GEN_PRELUDE),
+        cons=[Atom('str({0}) == str({1})', (Sym("<c>"), Sym("<t>")), cmp=True), Atom('{0} == {1}', (Sym("<p>"), Sym("<t>")), cmp=True)],
+        gens={"<c>": ("const", lambda a: "12"), "<p>": ("pick", None)},
     )
     for name, e in c.items():
         e["name"] = name
         g: RefGrammar = e["ref"]
-        e["fan"] = RefGrammar(g.rules, g.generators, g.prelude, tuple(text(f) for f in e["cons"]), g.binary).fan()
+        e["fan"] = RefGrammar(g.rules, g.generators, g.prelude, tuple(text(f) for f in e["cons"]) + tuple(e.get("extra_cons", ())), g.binary).fan()
     return c
 
 
@@ -163,7 +182,7 @@ def _nodes(s: tuple):
             yield from _nodes(k)
 
 
-def judge_generators(e: dict, tree: Any, log: list) -> Optional[str]:
+def judge_generators(e: dict, tree: Any, log: list, all_violations: Optional[list] = None) -> Optional[str]:
     """C16: the text of every generator-owned node is a logged return value of its generator;
     for a generator with arguments it is the function applied to the argument values recorded
     in .sources; generator-owned children are marked read-only."""
@@ -174,7 +193,13 @@ def judge_generators(e: dict, tree: Any, log: list) -> Optional[str]:
     for (fname, args, val) in log:
         returned.setdefault(fname, set()).add(val)
 
+    found: list = []
+
     def walk(t: Any) -> Optional[str]:
+        r = walk1(t)
+        return r
+
+    def walk1(t: Any) -> Optional[str]:
         sym = t.symbol
         if sym.is_non_terminal and sym.name() in gens:
             fname, fn = gens[sym.name()]
@@ -182,23 +207,39 @@ def judge_generators(e: dict, tree: Any, log: list) -> Optional[str]:
             if txt not in returned.get(fname, set()):
                 return f"{sym.name()} has text {txt!r}, which generator {fname} never returned (returned: {sorted(returned.get(fname, set()))})"
             if fn is not None:
-                args = tuple(str(x) for x in t.sources)
+                args = {x.symbol.name(): str(x) for x in t.sources}
                 try:
                     want = fn(args)
                 except Exception:
                     want = None
                 if (args or fname == "const") and want != txt:
                     return f"{sym.name()} has text {txt!r} but its recorded arguments {args} give {want!r}"
-                if fname == "dbl" and not args:
+                if fname in ("dbl", "cat") and not args:
                     return f"{sym.name()} carries no recorded argument (sources empty)"
             return None  # (the read-only marking is the mechanism, not the property: it is not judged)
+        first = None
         for c in t.children:
-            r = walk(c)
+            r = walk1(c)
             if r:
-                return r
-        return None
+                found.append(r)
+                first = first or r
+        return first
 
-    return walk(tree)
+    r0 = walk(tree)
+    if all_violations is not None:
+        all_violations.extend(dict.fromkeys(([r0] if r0 else []) + found))
+    return r0
+
+
+def _is_partner_value(e: dict, tree: Any, why: str) -> bool:
+    """the foreign text of the generator-owned field equals the current text of the symbol it is
+    constrained to be equal to (what the equality repair copies in)"""
+    import re
+    m = re.match(r"^(<\w+>) has text '([^']*)'", why)
+    if not m:
+        return False
+    others = {str(n) for n in tree.flatten() if n.symbol.is_non_terminal and n.symbol.name() == "<t>"}
+    return m.group(2) in others
 
 
 def _all_read_only(t: Any) -> bool:
@@ -266,6 +307,7 @@ def loop_run(task: tuple) -> dict:
                 why = judge_generators(e, t, log)
                 if why:
                     out["viol"].append(("C16", dict(base, kind="generated_field_not_generator_output", where=label, why=why, tree=str(t)[:80],
+                                                   field_taken_from_equality_partner=_is_partner_value(e, t, why),
                                                    sig=f"loop:{name}:{why[:50]}")))
                     break
     if "C10" in which:
@@ -421,9 +463,20 @@ def closure_work(task: tuple) -> dict:
             if why:
                 out["viol"].append(("C01", dict(basecase, kind="operator_produced_non_derivation", why=why, tree=str(res)[:80], sig=f"closure:{name}:{op}:{why[:40]}")))
         if "C16" in which and e.get("gens"):
-            why = judge_generators(e, res, get_log(spec))
+            mine: list = []
+            judge_generators(e, res, get_log(spec), mine)
+            # only the operator application that INTRODUCES foreign text is reported (a field that was
+            # already foreign in an input of the operator is that earlier application's violation)
+            inherited: list = []
+            for x in (base, part):
+                if x is not None:
+                    judge_generators(e, x, get_log(spec), inherited)
+            fresh = [w for w in mine if w not in inherited]
+            why = fresh[0] if fresh else None
             if why:
-                out["viol"].append(("C16", dict(basecase, kind="operator_broke_generated_field", why=why, tree=str(res)[:80], sig=f"closure:{name}:{op}:{why[:50]}")))
+                out["viol"].append(("C16", dict(basecase, kind="operator_broke_generated_field", why=why, tree=str(res)[:80],
+                                               field_taken_from_equality_partner=_is_partner_value(e, res, why),
+                                               sig=f"closure:{name}:{op}:{why[:50]}")))
         out["new"].append((repr(s), (op, choices, builder, partner)))
     return out
 
